@@ -476,6 +476,10 @@ func c06Body(c *core.Ctx) {
 		c06Linear(c)
 		return
 	}
+	if c.Mode == "forced" {
+		c06Forced(c)
+		return
+	}
 	// thorough: 15x / 15x the sequences of quick at twice the length (an hour at 50x; the
 	// marginal sequence finds nothing the first thousands did not)
 	n := c.Pick(400, 6000)
@@ -632,9 +636,10 @@ func init() {
 				{Name: "quiesce", Mode: "quiesce", Shards: 8, Timeout: 60 * time.Minute},
 				{Name: "quiesce-race", Mode: "quiesce", Race: true, Shards: 8, Timeout: 60 * time.Minute},
 				{Name: "linear", Mode: "linear", Shards: 12, Timeout: 60 * time.Minute},
+				{Name: "forced", Mode: "forced", Shards: 12, Timeout: 60 * time.Minute},
 			}
 		},
-		Rule: "Random operation sequences (30 (60) ops) against the real jsondb over 2-5 DAG files drawn from a hostile name pool (spaces, dots, shared prefixes a/ab/a-b, the compaction suffix x_c, a timestamp-like name, non-ASCII, same base name in two directories; in 35% of the sequences glob metacharacters * ? [ ] \\). Ops: record a run (Open / 1-4 Write / Close with compaction, each by its own store instance like a real agent process; start times from a pool that puts runs in the same millisecond, same second, same minute, a minute apart, and on both sides of today's midnight; payloads 0 B - 70 KB non-ASCII), Update through the long-lived server instance (file cache in play), Rename to a fresh name, RemoveOld(1/3/7/30 days; file mtimes set with Chtimes to 0/2/5/10/40 days + 6 h), RemoveAll. After EVERY operation, for EVERY DAG: FindByRequestID of every model run (each write carries a unique id, so the answer names the write it came from) and of every removed/foreign id, ReadStatusRecent(n) for n in {1,2,len,len+3} against 'n most recently started, newest first' (identical milliseconds are an unordered tie), ReadStatusToday under both latestStatusToday settings; a fresh instance re-asks at the end. RemoveOld is judged one-sidedly (younger runs must survive). Non-trivial = every sequence (>= 30 ops, each followed by the full query set). Distinct = distinct operation sequences. Quiescence passes (plain and under the race detector): 60 (1500) rounds in which three reader goroutines query a long-lived caching store while another instance makes a burst of 2-4 manual updates of a 2 kB - 1.2 MB status; nothing is judged while they race, but after everybody has stopped all three queries must return the last update.",
+		Rule: "Random operation sequences (30 (60) ops) against the real jsondb over 2-5 DAG files drawn from a hostile name pool (spaces, dots, shared prefixes a/ab/a-b, the compaction suffix x_c, a timestamp-like name, non-ASCII, same base name in two directories; in 35% of the sequences glob metacharacters * ? [ ] \\). Ops: record a run (Open / 1-4 Write / Close with compaction, each by its own store instance like a real agent process; start times from a pool that puts runs in the same millisecond, same second, same minute, a minute apart, and on both sides of today's midnight; payloads 0 B - 70 KB non-ASCII), Update through the long-lived server instance (file cache in play), Rename to a fresh name, RemoveOld(1/3/7/30 days; file mtimes set with Chtimes to 0/2/5/10/40 days + 6 h), RemoveAll. After EVERY operation, for EVERY DAG: FindByRequestID of every model run (each write carries a unique id, so the answer names the write it came from) and of every removed/foreign id, ReadStatusRecent(n) for n in {1,2,len,len+3} against 'n most recently started, newest first' (identical milliseconds are an unordered tie), ReadStatusToday under both latestStatusToday settings; a fresh instance re-asks at the end. RemoveOld is judged one-sidedly (younger runs must survive). Non-trivial = every sequence (>= 30 ops, each followed by the full query set). Distinct = distinct operation sequences. Quiescence passes (plain and under the race detector): 60 (1500) rounds in which three reader goroutines query a long-lived caching store while another instance makes a burst of 2-4 manual updates of a 2 kB - 1.2 MB status; nothing is judged while they race, but after everybody has stopped all three queries must return the last update. Forced pass: 48 (960) rounds of one decided interleaving - a server-side query (recent history n=5 / n=1, latest status with either latestStatusToday setting; instance fresh or with a warm cache; 0/1/3 older finished runs; 1-3 writes; every second dozen of rounds with the process in a time zone (UTC-12 or UTC+14, chosen by the hour) whose calendar date differs from the UTC date at that moment) lists the directory while the run is still <run>.dat, the run then ends (compaction to <run>_c.dat), and only then the query reads what it listed; the query is held between listing and reads by two named pipes named like newer status files (no hook): the run, recorded before the query began, must be returned first with its last acknowledged write, older runs after it.",
 		Assumptions: []string{"request ids have distinct 8-character prefixes (file names keep 8 characters; real ids are UUIDs)",
 			"runs with zero writes are not generated (C07 owns that window)", "answers given while readers race a writer are not judged; what is returned after they have stopped is"}})
 }
